@@ -60,6 +60,9 @@ def stepVarInt (args : List String) : Option String :=
   | ["vi.enc", n] => do
     let v ← natArg n
     some (hexOfBytes (VarInt.encode v))
+  | ["vi.encw", n, _] => do
+    let v ← natArg n
+    if v ≤ VarInt.maxVal then some (hexOfBytes (VarInt.encode v)) else some "not-a-varint"
   | ["vi.u32", n] => do
     let v ← natArg n
     match VarInt.tryFromU32 v with
@@ -86,7 +89,8 @@ def stepNV (args : List String) : Option String :=
   | ["nv.write", cap, n, v] => do
     let nb ← bytesOfHex n
     let vb ← bytesOfHex v
-    let sink ← (if cap == "vec" then some (Sink.vec []) else (natArg cap).map Sink.slice)
+    -- `drip<k>`: a growable writer that accepts at most k bytes per `write` call — for `write_all` the same as a `Vec`
+    let sink ← (if cap == "vec" || cap.startsWith "drip" then some (Sink.vec []) else (natArg cap).map Sink.slice)
     let (s, r) := NV.write nb vb sink
     let rs := match r with
       | .ok k => s!"ok {k}"
@@ -226,7 +230,7 @@ def stepName (args : List String) : Option String :=
   | _ => none
 
 def parseSink (cap : String) : Option Sink :=
-  if cap == "vec" then some (Sink.vec []) else (natArg cap).map Sink.slice
+  if cap == "vec" || cap.startsWith "drip" then some (Sink.vec []) else (natArg cap).map Sink.slice
 
 def stepResp (args : List String) : Option String :=
   match args with
